@@ -11,7 +11,42 @@ def sig_static_conflict(v, chart, ctx):
     return ctx.get("class") == "static"
 
 
+def _ancestors(chart, s):
+    out = set()
+    p = chart["states"][s - 1]["parent"]
+    while p:
+        out.add(p)
+        p = chart["states"][p - 1]["parent"]
+    return out
+
+
+def sig_unevaluated_ancestor_cond(v, chart, ctx):
+    """consequence of the static pre-emption rule (KF-C01-1) for error handling: the failing
+    condition of an ANCESTOR's transition is never evaluated because a descendant already
+    contributed a transition, so the error.execution Appendix D would raise is missing.
+    Matches only: expected has exactly one more atom than got, that atom is raise(error.execution),
+    and every transition with a failing condition has a source that is a proper ancestor of the
+    source of a transition taken in this step."""
+    if chart is None or v.get("why") != "atoms":
+        return False
+    exp, got = v["expected"], v["got"]
+    key = lambda a: (a["a"], tuple(a["x"]), a["v"])
+    e = [key(a) for a in exp]
+    g = [key(a) for a in got]
+    err = ("raise", ("error", "execution"), 0)
+    if len(e) != len(g) + 1 or err not in e:
+        return False
+    i = next(i for i in range(len(e)) if i >= len(g) or e[i] != g[i])
+    if e[i] != err or e[:i] + e[i + 1:] != g:
+        return False
+    bad = [t for t in chart["trans"] if t["cond"].get("k") == "berr"]
+    taken = [a["x"][0] for a in got if a["a"] == "take"]
+    tsrc = [t["src"] for t in chart["trans"] if t["id"] in taken]
+    return bool(bad) and all(any(b["src"] in _ancestors(chart, s) for s in tsrc) for b in bad)
+
+
 SIGNATURES = {
+    "unevaluated_ancestor_cond": sig_unevaluated_ancestor_cond,
     "static_conflict": sig_static_conflict,
 }
 
